@@ -11,7 +11,7 @@ open Golem.Go Golem.Model Golem.Model.DSL Golem.Model.StageCfg
 
 variable {σ α β ε : Type}
 
-attribute [local simp] runBody bind BodyM.bind pure BodyM.pure selSend plainSend ret next pollDone getS setS visit arrow
+attribute [local simp] runBody callsOf bind BodyM.bind pure BodyM.pure applyF selSend plainSend ret next pollDone getS setS visit arrow
   toExcept catchEm catchAfter mkStage
 
 /-- loop body and deferred send: the regenerated worker of `fork.Fold` IS `foldS` (the stage of `pipe.Fold` and of
